@@ -185,7 +185,7 @@ def run_property(prop, tier):
         rec = {
             "name": x.fn,
             "engine": "E1-crosshair",
-            "desc": x.desc or (inspect.getdoc(getattr(mod, x.fn)) or "").strip().splitlines()[0:1],
+            "desc": x.desc or " ".join(l.strip() for l in (inspect.getdoc(getattr(mod, x.fn)) or "").strip().splitlines() if not l.strip().startswith(("pre:", "post:", "raises:"))),
             "timeout_s": real.get("timeout"),
             "paths": sum(c.get("paths", 0) for c in real.get("conditions", [])),
             "z3_checks": real.get("z3_checks", 0),
